@@ -2,7 +2,7 @@
 From Coq Require Import ZArith NArith List Bool Lia ZifyBool.
 Import ListNotations.
 Require Import EmbossV.Bits.Model EmbossV.Bits.Proofs_Int EmbossV.Bits.Proofs_Load EmbossV.Bits.Proofs_Read
-               EmbossV.Bits.Proofs_Bcd.
+               EmbossV.Bits.Proofs_Bcd EmbossV.Bits.Proofs_Write EmbossV.Bits.Proofs_Portable.
 Open Scope Z_scope.
 
 Local Arguments Z.pow : simpl never.
@@ -234,6 +234,21 @@ Proof.
       rewrite pow10_S. assert (0 <= x mod 16 < 16) by (apply Z.mod_pos_bound; lia).
       specialize (IH (x / 16) ltac:(apply Z.div_pos; lia)). lia. }
     specialize (V (bcd_digits w) (spec_bits o bs off w) ltac:(unfold spec_bits; lia)). lia.
+Qed.
+
+(* the EMBOSS_NO_OPTIMIZATIONS configuration (portable loops, non-two's-complement ConvertToSigned) reads the same *)
+Lemma portable_reads_agree_l : forall o bs off w ut, container_ok o bs -> field_ok bs off w ->
+  read_uint false o bs off w = read_uint true o bs off w /\
+  read_int false o bs off w = read_int true o bs off w /\
+  bcd_read false (bits_field o bs off w) w = bcd_read true (bits_field o bs off w) w /\
+  bcd_ok false (bits_field o bs off w) w = bcd_ok true (bits_field o bs off w) w /\
+  flag_read false (bits_field o bs off w) = flag_read true (bits_field o bs off w) /\
+  enum_read false (bits_field o bs off w) ut w = enum_read true (bits_field o bs off w) ut w /\
+  float_read_bits false (bits_field o bs off w) w = float_read_bits true (bits_field o bs off w) w.
+Proof.
+  intros o bs off w ut C F. assert (WF := bits_field_wf o bs off w C F).
+  destruct (reads_portable _ _ w ut (wf_blk _ _ _ _ WF)) as [H1 [H2 [H3 [H4 [H5 H6]]]]].
+  unfold read_uint, read_int. rewrite (int_read_portable _ _ _ _ WF). repeat split; assumption.
 Qed.
 
 (* ---------- non-vacuity: the hypotheses are satisfiable and the functions compute ---------- *)
